@@ -513,6 +513,8 @@ class Engine:
                     r = z3.IsMember(a.t, b.t)
                 elif b.kind == 'str' and a.kind == 'str':
                     r = z3.Contains(b.t, a.t)
+                elif b.kind in ('obj', 'str'):
+                    r = truthy(U('contains', b, a))
                 else:
                     raise Unsupported('in ' + b.kind)
                 out.append(z3.Not(r) if isinstance(op, ast.NotIn) else r)
@@ -627,8 +629,11 @@ class Engine:
             return V('cset', None, items=[self.ev(x, st) for x in e.elts])
         if isinstance(e, ast.JoinedStr):
             return Str(z3.String(fresh('fstring')))
-        if isinstance(e, ast.Dict) and not e.keys:
-            return V('dict', None, key=fresh('dict'))
+        if isinstance(e, ast.Dict):
+            if not e.keys:
+                return V('dict', None, key=fresh('dict'))
+            if all(isinstance(k, ast.Constant) for k in e.keys):
+                return V('dict', None, key=fresh('dict'), items={k.value: self.ev(v, st) for k, v in zip(e.keys, e.values)})
         raise Unsupported(ast.dump(e)[:100])
 
     def lift_const(self, c):
@@ -710,6 +715,8 @@ class Engine:
                 lo, hi = idx(sl.lower, z3.IntVal(0)), idx(sl.upper, n)
                 return Str(z3.SubString(a.t, lo, z3.If(hi - lo < 0, 0, hi - lo)), is_bytes=a.a.get('is_bytes', False))
             raise Unsupported('string index (IndexError not modelled)')
+        if a.kind == 'dict' and 'items' in a.a and isinstance(sl, ast.Constant) and sl.value in a.a['items']:
+            return a.a['items'][sl.value]
         if a.kind == 'tuple':
             if isinstance(sl, ast.Constant) and isinstance(sl.value, int):
                 return a.a['items'][sl.value]
@@ -824,6 +831,8 @@ class Engine:
             return U(f'{target[0]}.{target[1]}', *args, ret=target[2] if len(target) > 2 else 'obj')
         if name and name.startswith('self.') and name.count('.') == 1 and short not in self.pure:
             raise Unsupported(f'call to self.{short} without contract/hook (would need a frame)')
+        if isinstance(e.func, ast.Attribute) and e.func.attr == 'format':
+            return Str(z3.String(fresh('formatted')))        # message / template instantiation: opaque string
         if any(isinstance(a, ast.Starred) for a in e.args) or any(k.arg is None for k in e.keywords):
             raise Unsupported('star args')
         args = [self.ev(a, st) for a in e.args]
